@@ -4,15 +4,14 @@ CONSTANTS
   Place = "byref"
   Window = 3
   WindowRows = 3
-  MergeMode = "all"
-  Ordered = FALSE
-  Offsets <- OffSmall
+  MergeMode = "interior"
+  Ordered = TRUE
+  Offsets <- Off00
   Rects <- WindowRects
-  MaxCells = 3
+  MaxCells = 4
   MaxMerges = 1
-  MaxSheets = 2
-  Rots = {0}
+  MaxSheets = 1
+  Rots = {1}
   Layouts <- LayStd
-INVARIANTS TypeOK PlacedByRef FunctionLike MergeBlank
-PROPERTIES Locality
+INVARIANTS TypeOK PlacedByRef FunctionLike MergeBlank RootShown
 CHECK_DEADLOCK FALSE
